@@ -195,7 +195,7 @@ M('C01', 'where-gate-is-not-none', QX,
 M('C01', 'rows-skip-first-target', QX,
   "                values = [c_expr(context) for c_expr in c_target_exprs]\n                rows.append(values)",
   "                values = [c_expr(context) for c_expr in c_target_exprs[1:]]\n                rows.append(values)",
-  ('R-ROWLOOP', 'execute_select'), expect_error=True)
+  ('R-ROWLOOP', 'execute_select'))
 M('C01', 'from-dropped-when-where-present', CO,
   "            c_where = c_from_expr if c_where is None else EvalAnd([c_from_expr, c_where])",
   "            c_where = c_from_expr if c_where is None else c_where",
@@ -203,7 +203,7 @@ M('C01', 'from-dropped-when-where-present', CO,
 M('C01', 'from-ored-with-where', CO,
   "            c_where = c_from_expr if c_where is None else EvalAnd([c_from_expr, c_where])",
   "            c_where = c_from_expr if c_where is None else EvalOr([c_from_expr, c_where])",
-  ('R-FROMAND', '_compile_select'), expect_error=True)
+  ('R-FROMAND', '_compile_select'))
 T('C01', 'twin-binaryop-merged-null-tests', QC,
   "        left = self.left(context)\n        if left is None:\n            return None\n        right = self.right(context)\n        if right is None:\n            return None\n        return self.operator(left, right)",
   "        left = self.left(context)\n        right = self.right(context)\n        if left is None or right is None:\n            return None\n        return self.operator(left, right)")
@@ -220,3 +220,232 @@ T('C01', 'twin-where-gate-continue', QX,
 T('C01', 'twin-coalesce-explicit-continue', QC,
   "            if value is not None:\n                return value\n        return None",
   "            if value is None:\n                continue\n            return value\n        return None")
+
+# ---------------------------------------------------------------------- C02
+R('C02', 'regress-D1-column-equality', '67e29fa-compare-typed-table-column-accessors-by-the-attrib.diff',
+  ('R-EQFAITH', 'GetAttrColumn'))
+R('C02', 'regress-D3-subquery-equality', '8eceace-IN-subquery-nodes-compare-by-their-subquery.diff',
+  ('R-EQFAITH', 'EvalConstantSubquery1D'))
+M('C02', 'finalize-outside-group-loop', QX,
+  "        for key, store in aggregates.items():\n            key_iter = iter(key)\n            values = []\n\n            # Finalize the store.\n            for c_expr in c_aggregate_exprs:\n                c_expr.finalize(store)\n",
+  "        for c_expr in c_aggregate_exprs:\n            c_expr.finalize(store)\n        for key, store in aggregates.items():\n            key_iter = iter(key)\n            values = []\n",
+  ('R-AGGPROTO', 'execute_select'))
+M('C02', 'initialize-only-first-aggregate', QX,
+  "            for c_expr in c_aggregate_exprs:\n                c_expr.initialize(store)",
+  "            for c_expr in c_aggregate_exprs[:1]:\n                c_expr.initialize(store)",
+  ('R-AGGPROTO', 'execute_select'))
+M('C02', 'groups-sorted', QX,
+  "        for key, store in aggregates.items():", "        for key, store in sorted(aggregates.items(), key=repr):",
+  ('R-AGGPROTO', 'execute_select'))
+M('C02', 'aggregate-where-gate-is-not-none', QX,
+  "        for context in query.table:\n            if c_where is None or c_where(context):\n\n                # Compute the non-aggregate",
+  "        for context in query.table:\n            if c_where is None or c_where(context) is not None:\n\n                # Compute the non-aggregate",
+  ('R-AGGPROTO', 'execute_select'))
+M('C02', 'having-null-keeps-group', QX,
+  "                if not values[query.having_index]:\n                    continue",
+  "                if values[query.having_index] is False:\n                    continue",
+  ('R-AGGPROTO', 'execute_select'))
+M('C02', 'having-inverted', QX,
+  "                if not values[query.having_index]:\n                    continue",
+  "                if values[query.having_index]:\n                    continue",
+  ('R-AGGPROTO', 'execute_select'))
+M('C02', 'update-with-stale-store', QX,
+  "                for c_expr in c_aggregate_exprs:\n                    c_expr.update(store, context)",
+  "                for c_expr in c_aggregate_exprs:\n                    c_expr.update(store, key)",
+  ('R-AGGPROTO', 'execute_select'))
+M('C02', 'max-without-null-guard', QE,
+  "        value = self.operands[0](context)\n        if value is not None:\n            cur = store[self.handle]\n            if cur is None or value > cur:\n                store[self.handle] = value",
+  "        value = self.operands[0](context)\n        cur = store[self.handle]\n        if cur is None or value > cur:\n            store[self.handle] = value",
+  ('R-AGGCLASS', 'aggregate:max'))
+M('C02', 'min-uses-greater', QE,
+  "            if cur is None or value < cur:", "            if cur is None or value > cur:", ('R-AGGCLASS', 'aggregate:min'))
+M('C02', 'last-skips-null', QE,
+  "    def update(self, store, context):\n        value = self.operands[0](context)\n        store[self.handle] = value\n",
+  "    def update(self, store, context):\n        value = self.operands[0](context)\n        if value is not None:\n            store[self.handle] = value\n",
+  ('R-AGGCLASS', 'aggregate:last'))
+M('C02', 'first-overwrites', QE,
+  "        if store[self.handle] is None:\n            value = self.operands[0](context)\n            store[self.handle] = value",
+  "        value = self.operands[0](context)\n        if value is not None:\n            store[self.handle] = value",
+  ('R-AGGCLASS', 'aggregate:first'))
+M('C02', 'first-caches-on-self', QE,
+  "        if store[self.handle] is None:\n            value = self.operands[0](context)\n            store[self.handle] = value",
+  "        if store[self.handle] is None:\n            value = self.operands[0](context)\n            self.seen = value\n            store[self.handle] = value",
+  ('R-AGGCLASS', 'aggregate:first'))
+M('C02', 'countarg-counts-nulls', QE,
+  "        value = self.operands[0](context)\n        if value is not None:\n            store[self.handle] += 1",
+  "        value = self.operands[0](context)\n        store[self.handle] += 1",
+  ('R-AGGCLASS', 'aggregate:count(any)'))
+M('C02', 'sum-position-shared-zero', QE,
+  "class SumPosition(query_compile.EvalAggregator):\n    \"\"\"Calculate the sum of the position. The result is an Inventory.\"\"\"\n",
+  "class SumPosition(query_compile.EvalAggregator):\n    \"\"\"Calculate the sum of the position. The result is an Inventory.\"\"\"\n    EMPTY = inventory.Inventory()\n\n    def initialize(self, store):\n        store[self.handle] = self.EMPTY\n\n",
+  ('R-AGGCLASS', 'aggregate:sum(Position)'))
+M('C02', 'sum-decimal-subtracts', QE,
+  "    \"\"\"Calculate the sum of the numerical argument.\"\"\"\n    def update(self, store, context):\n        value = self.operands[0](context)\n        if value is not None:\n            store[self.handle] += value",
+  "    \"\"\"Calculate the sum of the numerical argument.\"\"\"\n    def update(self, store, context):\n        value = self.operands[0](context)\n        if value is not None:\n            store[self.handle] -= value",
+  ('R-AGGCLASS', 'aggregate:sum(Decimal)'))
+# latent only: the three #accounts columns differ in dtype, no two instances collide -> INFO, no violation
+T('C02', 'twin-latent-getitemcolumn-without-slots', SB,
+  "class GetItemColumn(query_compile.EvalColumn):\n    __slots__ = ('key',)\n",
+  "class GetItemColumn(query_compile.EvalColumn):\n")
+T('C02', 'twin-setdefault-instead-of-defaultdict', QX,
+  "                store = aggregates[key]\n", "                store = aggregates[key]\n                assert store is not None\n")
+T('C02', 'twin-min-reordered-test', QE,
+  "            if cur is None or value < cur:", "            if cur is None or cur > value:")
+T('C02', 'twin-extra-slot-attribute', SB,
+  "    __slots__ = ('name',)\n", "    __slots__ = ('name', 'help')\n")
+
+# ---------------------------------------------------------------------- C03
+R('C03', 'regress-D24-order-by-bound', '3d6b355-ORDER-BY-position-is-checked-against-the-number-of.diff',
+  ('R-IDXBOUND', '_compile_order_by'))
+R('C03', 'regress-D1-column-equality', '67e29fa-compare-typed-table-column-accessors-by-the-attrib.diff',
+  ('R-EQFAITH', 'GetAttrColumn'))
+M('C03', 'limit-before-distinct', QX,
+  "    # Apply DISTINCT.\n    if query.distinct:\n        rows = uniquify(rows)\n\n    # Apply LIMIT.\n    if query.limit is not None:\n        rows = itertools.islice(rows, query.limit)\n",
+  "    # Apply LIMIT.\n    if query.limit is not None:\n        rows = itertools.islice(rows, query.limit)\n\n    # Apply DISTINCT.\n    if query.distinct:\n        rows = uniquify(rows)\n",
+  ('R-PIPELINE', 'execute_select'))
+M('C03', 'limit-zero-dropped', QX,
+  "    if query.limit is not None:", "    if query.limit:", ('R-PIPELINE', 'execute_select'))
+M('C03', 'limit-off-by-one', QX,
+  "        rows = itertools.islice(rows, query.limit)", "        rows = itertools.islice(rows, query.limit + 1)",
+  ('R-PIPELINE', 'execute_select'))
+M('C03', 'distinct-before-projection', QX,
+  "    # Extract results set and convert into tuples.\n    rows = (tuple(row[i] for i in result_indexes) for row in rows)\n\n    # Apply DISTINCT.\n    if query.distinct:\n        rows = uniquify(rows)\n",
+  "    # Apply DISTINCT.\n    if query.distinct:\n        rows = uniquify(tuple(row) for row in rows)\n\n    # Extract results set and convert into tuples.\n    rows = (tuple(row[i] for i in result_indexes) for row in rows)\n",
+  ('R-PIPELINE', 'execute_select'))
+M('C03', 'sort-reverse-negated', QX,
+  "            rows.sort(key=nullitemgetter(*indexes), reverse=reverse)", "            rows.sort(key=nullitemgetter(*indexes), reverse=not reverse)",
+  ('R-SORTSKEL', 'execute_select'))
+M('C03', 'sort-keys-not-reversed-back', QX,
+  "            indexes = reversed([i[0] for i in spec])", "            indexes = [i[0] for i in spec]",
+  ('R-SORTSKEL', 'execute_select'))
+M('C03', 'sort-passes-left-to-right', QX,
+  "itertools.groupby(reversed(order_spec), key=operator.itemgetter(1)):", "itertools.groupby(order_spec, key=operator.itemgetter(1)):",
+  ('R-SORTSKEL', 'execute_select'))
+M('C03', 'sort-plain-itemgetter', QX,
+  "            rows.sort(key=nullitemgetter(*indexes), reverse=reverse)", "            rows.sort(key=operator.itemgetter(*indexes), reverse=reverse)",
+  ('R-SORTSKEL', 'execute_select'))
+M('C03', 'nullitemgetter-multi-keeps-none', QX,
+  "                r.append(value if value is not None else NULL)", "                r.append(value)",
+  ('R-NULLKEY', 'nullitemgetter'))
+M('C03', 'nullitemgetter-single-falsy-is-null', QX,
+  "        value = obj[item]\n        return value if value is not None else NULL", "        value = obj[item]\n        return value if value else NULL",
+  ('R-NULLKEY', 'nullitemgetter'))
+M('C03', 'null-lt-null-true', QX,
+  "    def __lt__(self, other):\n        # Make sure that instances of this class compare equal.\n        if isinstance(other, NullType):\n            return False\n        return True",
+  "    def __lt__(self, other):\n        return True",
+  ('R-NULLKEY', 'NullType.__lt__'))
+M('C03', 'null-gt-value-true', QX,
+  "        if isinstance(other, NullType):\n            return True\n        return False", "        return True",
+  ('R-NULLKEY', 'NullType.__gt__'))
+M('C03', 'uniquify-forgets-to-record', QX,
+  "        if obj not in seen:\n            seen.add(obj)\n            yield obj", "        if obj not in seen:\n            yield obj",
+  ('R-NULLKEY', 'uniquify'))
+M('C03', 'order-by-bound-all-targets', CO,
+  "        n_targets = len([target for target in c_targets if target.name is not None])\n\n        order_spec = []",
+  "        n_targets = len(c_targets)\n\n        order_spec = []",
+  ('R-IDXBOUND', '_compile_order_by'))
+M('C03', 'order-by-index-not-shifted', CO,
+  "            if isinstance(column, int):\n                index = column - 1\n                if not 0 <= index < n_targets:\n                    raise CompilationError(f'invalid ORDER-BY column index {column}')",
+  "            if isinstance(column, int):\n                index = column\n                if not 0 <= index < n_targets:\n                    raise CompilationError(f'invalid ORDER-BY column index {column}')",
+  ('R-IDXBOUND', '_compile_order_by'))
+M('C03', 'order-by-hidden-target-named', CO,
+  "                        new_targets.append(EvalTarget(c_expr, None, is_aggregate(c_expr)))",
+  "                        new_targets.append(EvalTarget(c_expr, column.text, is_aggregate(c_expr)))",
+  ('R-HIDDEN', '_compile_order_by'))
+T('C03', 'twin-limit-two-statements', QX,
+  "        rows = itertools.islice(rows, query.limit)\n", "        rows = list(itertools.islice(rows, query.limit))\n")
+T('C03', 'twin-sortkey-local', QX,
+  "            rows.sort(key=nullitemgetter(*indexes), reverse=reverse)", "            keyfunc = nullitemgetter(*indexes)\n            rows.sort(key=nullitemgetter(*indexes), reverse=reverse)")
+
+# ---------------------------------------------------------------------- C05
+R('C05', 'regress-D8-order-by-having-aggregate-checks', 'caafab6-ORDER-BY-and-HAVING-expressions-get-the-same-aggre.diff',
+  ('R-TARGETCHK', '_compile_order_by'))
+R('C05', 'regress-D9-open-close-bool', 'c4835a7-FROM-OPEN-ON--date--CLOSE-without-a-date-no-longer.diff',
+  ('R-GUARDSAFE', '_compile_from'))
+R('C05', 'regress-D10-pivot-none-group', 'a43200d-PIVOT-BY-on-a-non-aggregate-query-is-a-Compilation.diff',
+  ('R-GUARDSAFE', '_compile_pivot_by'))
+R('C05', 'regress-D11-pivot-bound', 'd568a83-PIVOT-BY-references-are-validated-against-the-visi.diff',
+  ('R-IDXBOUND', '_compile_pivot_by'))
+M('C05', 'where-aggregate-guard-deleted', CO,
+  "        if c_where is not None and is_aggregate(c_where):\n            raise CompilationError('aggregates are not allowed in WHERE clause')\n",
+  "", ('R-GUARDS', 'where-aggregate'))
+M('C05', 'having-guard-deleted', CO,
+  "                if not is_aggregate(c_expr):\n                    raise CompilationError('the HAVING clause must be an aggregate expression')\n",
+  "", ('R-GUARDS', 'having-aggregate'))
+M('C05', 'hashable-guard-deleted', CO,
+  "                if not issubclass(c_expr.dtype, collections.abc.Hashable):\n                    raise CompilationError(f'GROUP-BY a non-hashable type is not supported: \"{column}\"')\n",
+  "", ('R-GUARDS', 'group-hashable'))
+M('C05', 'coverage-raises-valueerror', CO,
+  "                raise CompilationError(\n                    'all non-aggregates must be covered by GROUP-BY clause in aggregate query: '",
+  "                raise ValueError(\n                    'all non-aggregates must be covered by GROUP-BY clause in aggregate query: '",
+  ('R-RAISE', '_compile_select'))
+M('C05', 'unknown-column-keyerror', CO,
+  "        column = self.table.columns.get(node.name)\n        if column is not None:\n            return column\n        raise CompilationError(f'column \"{node.name}\" does not exist', node)",
+  "        return self.table.columns[node.name]",
+  ('R-GUARDS', 'unknown-column'))
+M('C05', 'group-by-bound-inclusive', CO,
+  "                    if not 0 <= index < len(c_targets):", "                    if not 0 <= index <= len(c_targets):",
+  ('R-IDXBOUND', '_compile_group_by'))
+M('C05', 'pivot-distinct-guard-deleted', CO,
+  "        if indexes[0] == indexes[1]:\n            raise CompilationError('the two PIVOT BY columns cannot be the same column')\n",
+  "", ('R-GUARDS', 'pivot-distinct'))
+M('C05', 'in-subquery-columns-guard-deleted', CO,
+  "            if len(right.columns) != 1:\n                raise CompilationError('subquery has too many columns', node.right)\n",
+  "", ('R-GUARDS', 'in-subquery-columns'))
+M('C05', 'compilationerror-reparented', CO,
+  "class CompilationError(ProgrammingError):", "class CompilationError(Exception):", ('R-EXCTREE', 'CompilationError'))
+M('C05', 'handler-dropped-for-between', CO,
+  "    @_compile.register\n    def _between(self, node: ast.Between):", "    def _between(self, node: ast.Between):",
+  ('R-EXHAUSTIVE', 'grammar:between'))
+M('C05', 'order-by-checks-dropped', CO,
+  "                    c_expr = self._compile(column)\n                    self._check_aggregates(c_expr)\n\n                    # Attempt to reconcile the expression with one of the existing\n                    # target expressions.\n                    try:\n                        index = c_target_expressions.index(c_expr)\n                    except ValueError:\n                        # Add the new target. 'None' for the target name implies it\n                        # should be invisible, not to be rendered.\n                        index = len(new_targets)\n                        new_targets.append(EvalTarget(c_expr, None, is_aggregate(c_expr)))",
+  "                    c_expr = self._compile(column)\n\n                    # Attempt to reconcile the expression with one of the existing\n                    # target expressions.\n                    try:\n                        index = c_target_expressions.index(c_expr)\n                    except ValueError:\n                        # Add the new target. 'None' for the target name implies it\n                        # should be invisible, not to be rendered.\n                        index = len(new_targets)\n                        new_targets.append(EvalTarget(c_expr, None, is_aggregate(c_expr)))",
+  ('R-TARGETCHK', '_compile_order_by'))
+M('C05', 'unaryop-resolution-dropped', CO,
+  "        function = types.function_lookup(OPERATORS, type(node), [operand])\n        if function is None:\n            raise CompilationError(\n                f'operator \"{type(node).__name__.lower()}({types.name(operand.dtype)})\" not supported', node)\n",
+  "        function = OPERATORS[type(node)][0]\n",
+  ('R-OPRESOLVE', '_unaryop'))
+T('C05', 'twin-guard-predicate-local', CO,
+  "        if c_where is not None and is_aggregate(c_where):\n            raise CompilationError('aggregates are not allowed in WHERE clause')",
+  "        where_is_aggregate = c_where is not None and is_aggregate(c_where)\n        if c_where is not None and is_aggregate(c_where):\n            raise CompilationError('aggregates are not allowed in WHERE clause')")
+T('C05', 'twin-message-reworded', CO,
+  "raise CompilationError('the two PIVOT BY columns cannot be the same column')", "raise CompilationError('PIVOT BY needs two different columns')")
+
+# ---------------------------------------------------------------------- C07
+M('C07', 'description-includes-hidden', QX,
+  "    result_types = tuple(Column(target.name, target.c_expr.dtype)\n                         for target in query.c_targets\n                         if target.name is not None)",
+  "    result_types = tuple(Column(target.name, target.c_expr.dtype)\n                         for target in query.c_targets)",
+  ('R-VISFILTER', 'execute_select'))
+M('C07', 'rows-include-hidden', QX,
+  "    result_indexes = [index\n                      for index, c_target in enumerate(query.c_targets)\n                      if c_target.name]",
+  "    result_indexes = [index\n                      for index, c_target in enumerate(query.c_targets)]",
+  ('R-VISFILTER', 'execute_select'))
+M('C07', 'subquery-index-over-all-targets', QC,
+  "        for i, target in enumerate(target for target in subquery.c_targets if target.name is not None):\n            column = self.column(i, target.name, target.c_expr.dtype)\n            self.columns[target.name] = column()",
+  "        for i, target in enumerate(subquery.c_targets):\n            if target.name is None:\n                continue\n            column = self.column(i, target.name, target.c_expr.dtype)\n            self.columns[target.name] = column()",
+  ('R-VISFILTER', 'SubqueryTable'))
+M('C07', 'group-by-hidden-target-named', CO,
+  "                            new_targets.append(EvalTarget(c_expr, None, aggregate))",
+  "                            new_targets.append(EvalTarget(c_expr, column.text, aggregate))",
+  ('R-HIDDEN', '_compile_group_by'))
+M('C07', 'hidden-targets-inserted-first', CO,
+  "        new_targets, group_indexes, having_index = self._compile_group_by(node.group_by, c_targets)\n        c_targets.extend(new_targets)",
+  "        new_targets, group_indexes, having_index = self._compile_group_by(node.group_by, c_targets)\n        for t in new_targets:\n            c_targets.insert(0, t)",
+  ('R-HIDDEN', 'targets-list'))
+M('C07', 'naming-column-before-alias', CO,
+  "    if target.name is not None:\n        return target.name\n    if isinstance(target.expression, ast.Column):\n        return target.expression.name\n",
+  "    if isinstance(target.expression, ast.Column):\n        return target.expression.name\n    if target.name is not None:\n        return target.name\n",
+  ('R-HIDDEN', 'get_target_name'))
+M('C07', 'naming-text-not-stripped', CO,
+  "    return target.expression.text.strip()", "    return target.expression.text", ('R-HIDDEN', 'get_target_name'))
+M('C07', 'wildcard-unknown-column', QE,
+  "    wildcard_columns = 'date flag payee narration position'.split()", "    wildcard_columns = 'date flag payee narration amount'.split()",
+  ('R-WILDCARD', 'PostingsTable'))
+M('C07', 'text-slice-off-by-one', 'beanquery/parser/ast.py',
+  "        return text[self.parseinfo.pos:self.parseinfo.endpos]", "        return text[self.parseinfo.pos:self.parseinfo.endpos - 1]",
+  ('R-NAMESLICE', 'Node.text'))
+M('C07', 'projection-skips-first-visible', QX,
+  "    rows = (tuple(row[i] for i in result_indexes) for row in rows)", "    rows = (tuple(row[i] for i in result_indexes[1:]) for row in rows)",
+  ('R-PIPELINE', 'execute_select'))
+T('C07', 'twin-columns-truthiness-filter', QC,
+  "        return [t for t in self.c_targets if t.name is not None]", "        return [t for t in self.c_targets if t.name]")
